@@ -35,3 +35,16 @@ def c08_k4_ptr_arm_answers(am):
     ia = flat.find("answers.notify(token)")
     ok = iu >= 0 and ia > iu and flat.count("answers.notify(") == 1 and "return" not in flat and "continue" not in flat and "break" not in flat
     return ok, "the Ptr arm of hot_reloading_thread must call answers.notify(token) after cache.update_if_local(..) on every path; arm: %s" % flat, "lines %s-%s: %s" % (rng[0], rng[1], flat)
+
+
+def c08_k5_visit_marks_before_recursing(am):
+    """DepsGraph::visit inserts the node into `visited` before it recurses into the reverse dependencies
+    (termination measure: number of unvisited nodes). The function itself is out of CBMC's reach (DESIGN.md 0.3)."""
+    txt, rep = _fn_text(am, "src/hot_reloading/dependencies.rs", "fn visit(&self, sort_data: &mut TopologicalSortData, key: BorrowedDependency) {")
+    flat = " ".join(l.split("//")[0] for l in txt.split("\n"))
+    flat = " ".join(flat.split())
+    i_ins = flat.find("sort_data.visited.insert(")
+    i_rec = flat.find("self.visit(")
+    i_chk = flat.find("sort_data.visited.contains(")
+    ok = 0 <= i_chk < i_ins < i_rec and flat.count("self.visit(") == 1
+    return ok, "DepsGraph::visit must check `visited`, then mark the node, and only then recurse (otherwise assets that look each other up recurse without bound): positions contains=%d insert=%d recurse=%d" % (i_chk, i_ins, i_rec), "lines %s: %s" % (rep["lines"], flat[:400])
